@@ -62,7 +62,7 @@ def gen_base(seed, tier="quick"):
         knobs["glob"] = r.random() < 0.3
     ncallers = r.choice([1, 1, 2, 2, 3])
     callers = plans.gen_callers(r, driver, ncallers, 2, mix=(0.75, 0.0, 0.25),
-                                allow_raise=False, allow_cancel=False,
+                                allow_raise=False, allow_cancel=False, unsupported=0.04,
                                 cats=_cats(r, driver), p_error=0.1 if hid else 0.0)
     plan = {"engine": "drvsim", "property": PROP, "driver": driver, "seed": seed,
             "knobs": knobs, "callers": callers, "faults": [], "post_sends": 2,
@@ -519,6 +519,12 @@ def judge(rr, ctx):
             continue
         if rec.status == "cancelled" or (rec.status in ("timeout", "raised") and rec.cancel_requested):
             continue
+        if rec.op.get("unsupported"):
+            # a frame the gateway cannot carry is refused at once - gateway there or not, retry policy or not
+            if rec.status != "raised" or any(s_["unit"] == u for s_ in rr.dev.sends):
+                V("unsupported-frame-not-refused", "unit %s: %d-bit frame, exceptions=%r: %s" % (
+                    u, rec.op["cmd"][0], rec.op.get("exceptions"), rec.status), site=drv)
+            continue
         if rec.status in ("raised", "timeout"):
             if hid:
                 if not isinstance(rec.exc, CommunicationError):
@@ -568,6 +574,16 @@ def judge(rr, ctx):
         if fin.get("outstanding"):
             V("in-flight-slot-leaked", "_outstanding still holds sequence numbers %s at quiescence" % (
                 fin["outstanding"],), site="+".join(sorted({f.get("style", f["kind"]) for f in faults})) or None)
+    if drv == "tridonic":
+        # sequence numbers never repeat immediately - a reconnection in between does not change that:
+        # a late report from before the loss must not match the first command after it
+        ss = [s_ for s_ in rr.dev.sends if "seq" in s_]
+        for a, b in zip(ss, ss[1:]):
+            if a["seq"] == b["seq"]:
+                V("sequence-number-repeated", "two consecutive SEND packets carry sequence number %d (device generation %s "
+                  "then %s)" % (a["seq"], a.get("gen"), b.get("gen")),
+                  site="across-reconnection" if a.get("gen") != b.get("gen") else "same-connection")
+                break
     if drv == "hasseb" and fin.get("command_lock"):
         V("command-lock-held-at-end", "hasseb command lock locked at quiescence")
     if serial and fin.get("proto_tx_lock"):
